@@ -623,6 +623,75 @@ func rulesC12(c *Ctx) {
 		}
 	})
 
+	c.Rule("R-C12-7", "the cancellation notice is a valid message of the protocol version in use: notifications/cancelled is always built from the request it cancels and inherits that request's _meta.protocolVersion / clientInfo / clientCapabilities (a notice without them is answered 400 by a 2026-07-28 server, which the streamable client treats as the end of the session)", func() {
+		notify := c.FnObj(pJ, "Connection", "Notify")
+		nc := c.Obj(pM, "notificationCancelled")
+		cpf := c.Fn(pM, "", "cancelledParams")
+		n := 0
+		for _, f := range c.funcsWithLits(pM) {
+			for _, call := range f.CallsIn(f.Body, notify, false) {
+				if len(call.Args) != 3 || f.ObjOf(call.Args[1]) != nc {
+					continue
+				}
+				n++
+				ok := false
+				if bc, isCall := ast.Unparen(call.Args[2]).(*ast.CallExpr); isCall && f.IsCallTo(bc, cpf.Obj) && len(bc.Args) == 3 {
+					// the third argument is the Params the enclosing function was given for the call being cancelled
+					if pp := f.Root().ParamOfNamed(pM, "Params"); pp != nil && f.ObjOf(bc.Args[2]) == types.Object(pp) {
+						ok = true
+					}
+				}
+				c.Check(ok, "cancelled-notice-built-from-request:"+f.Name(), f, call, "the payload is cancelledParams(ctx, call, params) with the cancelled request's own params")
+			}
+		}
+		c.Pin("notifications/cancelled senders", n, 2)
+		// cancelledParams copies the three per-request keys
+		want := map[types.Object]bool{c.Obj(pM, "MetaKeyProtocolVersion"): false, c.Obj(pM, "MetaKeyClientInfo"): false, c.Obj(pM, "MetaKeyClientCapabilities"): false}
+		var keyVar types.Object
+		inspectNoLit(cpf.Body, func(x ast.Node) {
+			rs, ok := x.(*ast.RangeStmt)
+			if !ok {
+				return
+			}
+			cl, isLit := ast.Unparen(rs.X).(*ast.CompositeLit)
+			if !isLit {
+				return
+			}
+			for _, e := range cl.Elts {
+				if o := cpf.ObjOf(e); o != nil {
+					if _, has := want[o]; has {
+						want[o] = true
+					}
+				}
+			}
+			if rs.Value != nil {
+				keyVar = cpf.ObjOf(rs.Value)
+			}
+			// body: v, ok := meta[key] … result.Meta[key] = v
+			okCopy := false
+			for _, w := range Writes(rs.Body, false) {
+				m, k, isIx := indexOf(w.LHS)
+				if isIx && cpf.ObjOf(k) == keyVar && keyVar != nil && strings.HasSuffix(cpf.FieldPath(m), "CancelledParams.Meta") && w.RHS != nil {
+					src := cpf.ObjOf(w.RHS)
+					for _, w2 := range cpf.writesToVar(rs, src, true) {
+						if as, isAs := w2.(*ast.AssignStmt); isAs && len(as.Rhs) == 1 {
+							if mm, kk, ok2 := indexOf(as.Rhs[0]); ok2 && cpf.ObjOf(kk) == keyVar && cpf.ObjOf(mm) == cpf.VarFromCallWhere(func(ce *ast.CallExpr) bool {
+								fn := cpf.Callee(ce)
+								return fn != nil && fn.Name() == "GetMeta"
+							}, 0) {
+								okCopy = true
+							}
+						}
+					}
+				}
+			}
+			c.Check(okCopy, "cancelledParams:copies-by-key", cpf, rs, "each listed key present in the request's _meta is copied into the notice's _meta")
+		})
+		for o, seen := range want {
+			c.Check(seen, "cancelledParams:inherits-"+o.Name(), cpf, nil, "%s is among the inherited keys", o.Name())
+		}
+	})
+
 	c.Import("R-C12-6", "the client derives the Mcp-Param-* headers of a tools/call from the tool definitions it has cached: a list_changed notification invalidates that cache before the user's handler runs, so definitions fetched from within the handler are the ones later calls use", "C18", "R-C18-5", func(k string) bool { return strings.HasPrefix(k, "callToolChangedHandler") })
 
 	c.Rule("R-C12-5", "the client puts the per-request metadata (from which the mirrored headers are derived and which the server's gate demands) on every request it sends on the 2026-07-28 protocol: under usesNewProtocol() no handleSend is reachable without injectRequestMeta, except for a closed table of methods", func() {
